@@ -60,11 +60,33 @@ class Msg:
         self.body += struct.pack(">HH", A_MI, 20) + hmac.new(key, m, hashlib.sha1).digest()
         return self
 
-    def fpr(self):
+    def fpr(self, typo=False):
+        """FINGERPRINT; typo=True: computed the way WLM 2009 did ([MS-ICE2] 3.1.4.8.2: one table entry mistyped), which only an MSICE2 agent may
+        accept, and only from a peer that does not announce its implementation version"""
         total = len(self.body) + 8
         m = struct.pack(">HH", msg_type(self.cls, self.method), total) + self.txid + self.body
-        self.body += struct.pack(">HHI", A_FPR, 4, (zlib.crc32(m) ^ 0x5354554e) & 0xffffffff)
+        self.body += struct.pack(">HHI", A_FPR, 4, ((crc32_typo(m) if typo else zlib.crc32(m)) ^ 0x5354554e) & 0xffffffff)
         return self
+
+
+_CRC_TAB = []
+
+
+def crc32_typo(data):
+    """CRC-32 with table entry 0x8bbeb8ea read as 0x08bbe8ea (stun/stuncrc32.c, wlm2009_stupid_crc32_typo)"""
+    if not _CRC_TAB:
+        for i in range(256):
+            c = i
+            for _ in range(8):
+                c = (c >> 1) ^ 0xedb88320 if c & 1 else c >> 1
+            _CRC_TAB.append(c)
+    crc = 0xffffffff
+    for b in data:
+        lkp = _CRC_TAB[(crc ^ b) & 0xff]
+        if lkp == 0x8bbeb8ea:
+            lkp = 0x08bbe8ea
+        crc = lkp ^ (crc >> 8)
+    return crc ^ 0xffffffff
 
 
 def parse(buf, no_align=False):
